@@ -217,3 +217,15 @@ package mocks
 //@   ensures[first_registration_scripted] acq(c.partitionConsumers[topic] == nil || c.partitionConsumers[topic][partition] == nil) ==> r.topic == topic && r.partition == partition && r.offset == offset && !r.consumed
 //@   ensures[registered_once] acq(c.partitionConsumers[topic] != nil && c.partitionConsumers[topic][partition] != nil) ==> r == acq(c.partitionConsumers[topic][partition])
 //@   nosafety
+
+// The configured partition counts: SetPartitions adds the given per-topic counts to the ones configured before
+// (a topic named again gets the new count, every other topic keeps its own); SetDefaultPartitions sets the default.
+//@ func (pc *TopicConfig) SetPartitions(partitions) props C20
+//@   requires pc.overridePartitions != nil
+//@   loop 0: invariant[given_counts_set] forall t string :: $visited[t] ==> haskey(pc.overridePartitions, t) && pc.overridePartitions[t] == partitions[t]
+//@   loop 0: invariant[other_topics_kept] forall t string :: !haskey(partitions, t) ==> haskey(pc.overridePartitions, t) == old(haskey(pc.overridePartitions, t)) && pc.overridePartitions[t] == old(pc.overridePartitions[t])
+//@   loop 0: invariant pc.overridePartitions == old(pc.overridePartitions)
+//@   ensures[given_counts_set] forall t string :: haskey(partitions, t) ==> haskey(pc.overridePartitions, t) && pc.overridePartitions[t] == partitions[t]
+//@   ensures[other_topics_kept] forall t string :: !haskey(partitions, t) ==> haskey(pc.overridePartitions, t) == old(haskey(pc.overridePartitions, t)) && pc.overridePartitions[t] == old(pc.overridePartitions[t])
+//@ func (pc *TopicConfig) SetDefaultPartitions(n) props C20
+//@   ensures[default_set] pc.defaultPartitions == n
